@@ -8,6 +8,8 @@ import JumanjiModel.Env.Snake.BoundsLemmas
 import JumanjiModel.Env.Snake.EpisodeLemmas
 import JumanjiModel.Prim.Float
 import JumanjiModel.Prim.FloatLemmas
+import JumanjiModel.Env.Snake.RunLemmas
+import JumanjiModel.Env.SpecTieSSM
 open Jm Jx Snake
 
 namespace Props.C04
@@ -25,9 +27,18 @@ theorem snake_cached_mask (rnd : Rat → Rat) (cfg : Cfg) (s : State) (a : Int) 
     (step rnd cfg s a d).1.actionMask = legalMask cfg (step rnd cfg s a d).1 :=
   Snake.step_mask_legal rnd cfg s a d hs
 
-/-- `step` treats an action as valid (`state.action_mask[action]`) exactly when it is legal -/
-theorem snake_step_agrees (cfg : Cfg) (s : State) (a : Nat) (ha : a < 4) (hm : s.actionMask = legalMask cfg s) :
-    getWC s.actionMask false (a : Int) = true ↔ legal cfg s a := Snake.step_agrees cfg s a ha hm
+/-- `step` agrees with the rules about validity (audit r2 #6: stated about `step`): with a correct cached mask, a step
+that neither fills the board nor reaches the time limit ends the episode exactly when the rules forbid the move -/
+theorem snake_step_agrees (rnd : Rat → Rat) (cfg : Cfg) (s : State) (a : Nat) (d : Nat) (ha : a < 4)
+    (hm : s.actionMask = legalMask cfg s) (hnc : Grid.all id (step rnd cfg s a d).1.body = false)
+    (hbl : s.stepCount + 1 < cfg.timeLimit) :
+    (step rnd cfg s a d).2.stepType = .last ↔ ¬ legal cfg s a :=
+  Snake.step_agrees_step rnd cfg s a d ha hm hnc hbl
+
+-- 2×3 board after reset at (0,0), fruit at (1,2): Right is legal and MID, Up (off the board) is LAST
+example : (step id ⟨2, 3, 10⟩ (reset id ⟨2, 3, 10⟩ 0 0 5).1 1 0).2.stepType = .mid ∧
+    (step id ⟨2, 3, 10⟩ (reset id ⟨2, 3, 10⟩ 0 0 5).1 0 0).2.stepType = .last ∧
+    (reset id ⟨2, 3, 10⟩ 0 0 5).1.actionMask = legalMask ⟨2, 3, 10⟩ (reset id ⟨2, 3, 10⟩ 0 0 5).1 := by decide +kernel
 
 -- 2×3 board, snake of length 3 bent around: moving Left onto the tail cell is legal, Up is not (off the board)
 example : legal ⟨2, 3, 10⟩ ⟨[], [[1, 0, 0], [2, 3, 0]], ⟨1, 1⟩, [], ⟨0, 2⟩, 3, 0, []⟩ 0 ∧
@@ -147,6 +158,45 @@ example :
     consistentB cfg s = true ∧ legal cfg s 3 ∧ ¬ (s.length < ((cfg.rows * cfg.cols : Nat) : Int)) ∧
       validDraw cfg (step id cfg s 3 0).1.body 0 ∧ consistentB cfg (step id cfg s 3 0).1 = false := by
   decide +kernel
+
+/-! #### packaged (audit r2, Snake gap): all non-terminal states of any play are consistent.
+`run rnd cfg s ads` = the (successor state, timestep) pairs of playing the (action, fruit draw) pairs `ads` with the L1
+`step`; `okStep` = action in 0..3 and, on the steps that eat the fruit (the only ones that draw), a draw admissible for
+the successor body (`validDraw`: a cell of the board that is not a body cell). -/
+
+/-- from ANY consistent state shorter than the board: if the transitions 0..k of a play are not LAST, the state
+transition `k` leads to is consistent -/
+theorem snake_run_states_consistent (rnd : Rat → Rat) (cfg : Cfg) (s : State) (hc : Consistent cfg s)
+    (hlen : s.length < ((cfg.rows * cfg.cols : Nat) : Int)) (ads : List ActDraw) (k : Nat)
+    (p : State × TimeStep Obs) (h : (run rnd cfg s ads)[k]? = some p)
+    (hok : ∀ j (hj : j < ads.length), j ≤ k → okStep rnd cfg (EpRun.after (stepA rnd cfg) s (ads.take j)) ads[j])
+    (hno : EpRun.NoLastBefore (stepA rnd cfg) (·.stepType = .last) s ads (k + 1)) :
+    Consistent cfg p.1 := Snake.run_states_consistent rnd cfg s hc hlen ads k p h hok hno
+
+/-- from RESET (any head cell of the board, any admissible fruit draw, any board with more than one cell): the reset
+state and all non-terminal states of any play are consistent -/
+theorem snake_run_consistent (rnd : Rat → Rat) (cfg : Cfg) (hr hc d0 : Nat) (h1 : hr < cfg.rows) (h2 : hc < cfg.cols)
+    (hd0 : validDraw cfg (reset rnd cfg hr hc d0).1.body d0) (hbig : 1 < cfg.rows * cfg.cols)
+    (ads : List ActDraw) :
+    Consistent cfg (reset rnd cfg hr hc d0).1 ∧
+    ∀ (k : Nat) (p : State × TimeStep Obs), (run rnd cfg (reset rnd cfg hr hc d0).1 ads)[k]? = some p →
+      (∀ j (hj : j < ads.length), j ≤ k →
+        okStep rnd cfg (EpRun.after (stepA rnd cfg) (reset rnd cfg hr hc d0).1 (ads.take j)) ads[j]) →
+      EpRun.NoLastBefore (stepA rnd cfg) (·.stepType = .last) (reset rnd cfg hr hc d0).1 ads (k + 1) →
+      Consistent cfg p.1 := by
+  have hC := (Snake.reset_consistent rnd cfg hr hc d0 h1 h2 hd0).1
+  refine ⟨hC, fun k p h hok hno => ?_⟩
+  exact Snake.run_states_consistent rnd cfg _ hC (by rw [Snake.reset_length]; omega) ads k p h hok hno
+
+-- a play of three non-LAST steps from reset on the 2×3 board: the hypotheses hold and every state is consistent
+example :
+    let cfg : Cfg := ⟨2, 3, 10⟩
+    let ads : List ActDraw := [(1, 5), (2, 0), (1, 0)]
+    ((run id cfg (reset id cfg 0 0 1).1 ads).map (fun p => decide (p.2.stepType = .last) || !consistentB cfg p.1)) =
+      [false, false, false] ∧
+    okStep id cfg (reset id cfg 0 0 1).1 (1, 5) := by
+  refine ⟨by decide +kernel, by decide, ?_⟩
+  decide +kernel
 end Props.C07
 
 namespace Props.C08
@@ -191,23 +241,56 @@ theorem snake_step_eq_spec_consistent (rnd : Rat → Rat) (cfg : Cfg) (s : State
     (hc : Consistent cfg s) (hnf : Grid.all id s.body = false) (hl : legal cfg s a) :
     stepSpec cfg s a d = some (step rnd cfg s a d).1 := Snake.stepSpec_eq_consistent rnd cfg s a d hc hnf hl
 
-/-- reward and step type of every step: reward 1 iff the new head is on the fruit; LAST iff the move
-was invalid, the snake fills the board, or the time limit is reached -/
-theorem snake_step_ts (rnd : Rat → Rat) (cfg : Cfg) (s : State) (a : Int) (d : Nat) :
+/-- L1 unfolding, for ALL states and action values (audit r2 #5: the right-hand sides are the L1 expressions — cached
+mask, `eatenB`; the statement in terms of the rules is `snake_step_ts_rules` below): reward 1 iff the new head is on the
+fruit; LAST iff the cached mask rejects the action, the new body fills the board, or the time limit is reached -/
+theorem snake_step_ts_l1 (rnd : Rat → Rat) (cfg : Cfg) (s : State) (a : Int) (d : Nat) :
     (step rnd cfg s a d).2.reward = [if eatenB s a then 1 else 0] ∧
     (step rnd cfg s a d).2.stepType =
       (if (!(getWC s.actionMask false a) || Grid.all id (step rnd cfg s a d).1.body ||
           decide (s.stepCount + 1 ≥ cfg.timeLimit)) then .last else .mid) :=
   ⟨Snake.step_reward rnd cfg s a d, Snake.step_type rnd cfg s a d⟩
+
+/-- reward and step type in terms of the RULES: from a consistent state shorter than the board (every non-terminal
+state of every play, `Props.C07.snake_run_consistent`), for every in-spec action and every draw, the step is LAST iff
+the move is illegal, or the snake now fills the board (`length' = rows * cols`), or the time limit is reached; and the
+reward is 1 iff the move eats the fruit, 0 otherwise -/
+theorem snake_step_ts_rules (rnd : Rat → Rat) (cfg : Cfg) (s : State) (a : Nat) (d : Nat) (ha : a < 4)
+    (hc : Consistent cfg s) (hlen : s.length < ((cfg.rows * cfg.cols : Nat) : Int)) :
+    ((step rnd cfg s a d).2.stepType = .last ↔
+      (¬ legal cfg s a ∨ (step rnd cfg s a d).1.length = ((cfg.rows * cfg.cols : Nat) : Int) ∨
+        s.stepCount + 1 ≥ cfg.timeLimit)) ∧
+    (step rnd cfg s a d).2.reward = [if eats s a then 1 else 0] :=
+  Snake.step_ts_rules rnd cfg s a d ha hc hlen
+
+-- the hypotheses are satisfiable (the 2×3 example state of C07), and all three causes occur:
+-- 1×2 board: Right from (0,0) eats the fruit at (0,1) and fills the board: LAST with reward 1
+example : Consistent ⟨1, 2, 10⟩ (reset id ⟨1, 2, 10⟩ 0 0 1).1 ∧
+    (step id ⟨1, 2, 10⟩ (reset id ⟨1, 2, 10⟩ 0 0 1).1 1 0).2.stepType = .last ∧
+    (step id ⟨1, 2, 10⟩ (reset id ⟨1, 2, 10⟩ 0 0 1).1 1 0).2.reward = [1] ∧
+    legal ⟨1, 2, 10⟩ (reset id ⟨1, 2, 10⟩ 0 0 1).1 1 ∧
+    (step id ⟨1, 2, 10⟩ (reset id ⟨1, 2, 10⟩ 0 0 1).1 1 0).1.length = 2 :=
+  ⟨(Props.C07.snake_consistentB_iff _ _).1 (by decide +kernel), by decide +kernel, by decide +kernel, by decide,
+    by decide +kernel⟩
 end Props.C09
 
 namespace Props.C10
-/-- every generated instance (reset state) is well-formed: head and fruit on distinct free cells of the
-board (part of `Consistent`), length 1 — for all board sizes, head cells and admissible fruit draws -/
+/-- every generated instance is well-formed — a statement about the draws of the transliterated `reset` (audit r2 #7:
+no longer a copy of `snake_reset_consistent`): for every head draw inside `[0, board_shape)` and every admissible fruit
+draw, head and fruit are cells of the board, they are DIFFERENT cells on every board with more than one cell, the snake
+is exactly the head cell (the chain `[(hr, hc)]`), length 1, step count 0 -/
 theorem snake_reset_wellformed (rnd : Rat → Rat) (cfg : Cfg) (hr hc : Nat) (d : Nat)
     (h1 : hr < cfg.rows) (h2 : hc < cfg.cols) (hd : validDraw cfg (reset rnd cfg hr hc d).1.body d) :
-    Consistent cfg (reset rnd cfg hr hc d).1 ∧ (reset rnd cfg hr hc d).1.length = 1 ∧
-      (reset rnd cfg hr hc d).1.stepCount = 0 := Snake.reset_consistent rnd cfg hr hc d h1 h2 hd
+    inGrid cfg (reset rnd cfg hr hc d).1.head.row (reset rnd cfg hr hc d).1.head.col ∧
+    inGrid cfg (reset rnd cfg hr hc d).1.fruit.row (reset rnd cfg hr hc d).1.fruit.col ∧
+    (1 < cfg.rows * cfg.cols → (reset rnd cfg hr hc d).1.fruit ≠ (reset rnd cfg hr hc d).1.head) ∧
+    Chain cfg (reset rnd cfg hr hc d).1 [(hr, hc)] ∧
+    (reset rnd cfg hr hc d).1.length = 1 ∧ (reset rnd cfg hr hc d).1.stepCount = 0 :=
+  Snake.reset_wellformed rnd cfg hr hc d h1 h2 hd
+
+-- admissible and inadmissible draws on the 2×3 board with the head at (0,0): cell 5 is free, cell 0 is the head
+example : validDraw ⟨2, 3, 10⟩ (reset id ⟨2, 3, 10⟩ 0 0 5).1.body 5 ∧
+    ¬ validDraw ⟨2, 3, 10⟩ (reset id ⟨2, 3, 10⟩ 0 0 0).1.body 0 := by decide
 
 /-- an admissible fruit draw puts the fruit on a cell of the board -/
 theorem snake_fruit_in_grid (cfg : Cfg) (d : Nat) (hd : d < cfg.rows * cfg.cols) :
@@ -220,6 +303,58 @@ theorem snake_step_count (rnd : Rat → Rat) (cfg : Cfg) (s : State) (a : Int) (
     (step rnd cfg s a d).1.stepCount = s.stepCount + 1 ∧
     (s.stepCount + 1 ≥ cfg.timeLimit → (step rnd cfg s a d).2.stepType = .last) :=
   Snake.step_count rnd cfg s a d
+
+/-- never earlier without another cause (audit r2 #5, the LAST ↔ of `snake_step_ts_rules`): from a consistent state
+shorter than the board a step is LAST iff the move is illegal, the snake fills the board, or the limit is reached -/
+theorem snake_last_iff (rnd : Rat → Rat) (cfg : Cfg) (s : State) (a : Nat) (d : Nat) (ha : a < 4)
+    (hc : Consistent cfg s) (hlen : s.length < ((cfg.rows * cfg.cols : Nat) : Int)) :
+    (step rnd cfg s a d).2.stepType = .last ↔
+      (¬ legal cfg s a ∨ (step rnd cfg s a d).1.length = ((cfg.rows * cfg.cols : Nat) : Int) ∨
+        s.stepCount + 1 ≥ cfg.timeLimit) := (Snake.step_ts_rules rnd cfg s a d ha hc hlen).1
+
+/-! #### episode level: `run rnd cfg s ads`, transition `k` (0-based) is the `(k+1)`-th step -/
+
+/-- never later: every transition whose step number has reached the time limit is LAST — ANY state, ANY actions and
+draws, no hypotheses -/
+theorem snake_run_last_at_limit (rnd : Rat → Rat) (cfg : Cfg) (s : State) (ads : List ActDraw) (k : Nat)
+    (p : State × TimeStep Obs) (h : (run rnd cfg s ads)[k]? = some p)
+    (hk : s.stepCount + k + 1 ≥ cfg.timeLimit) : p.2.stepType = .last :=
+  Snake.run_last_at_limit rnd cfg s ads k p h hk
+
+/-- so every play that is long enough contains a LAST at or before step `time_limit` -/
+theorem snake_run_exists_last (rnd : Rat → Rat) (cfg : Cfg) (s : State) (ads : List ActDraw)
+    (h0 : s.stepCount < cfg.timeLimit) (hlen : cfg.timeLimit - s.stepCount ≤ ads.length) :
+    ∃ (k : Nat) (p : State × TimeStep Obs), s.stepCount + k + 1 ≤ cfg.timeLimit ∧
+      (run rnd cfg s ads)[k]? = some p ∧ p.2.stepType = .last := Snake.run_exists_last rnd cfg s ads h0 hlen
+
+/-- never earlier: up to and including the first LAST of a play from a consistent state shorter than the board (e.g.
+reset), a transition is LAST iff another cause holds (`otherCause`: the move is illegal or the snake now fills the
+board) or its step number has reached the limit -/
+theorem snake_run_last_iff (rnd : Rat → Rat) (cfg : Cfg) (s : State) (hc : Consistent cfg s)
+    (hlen : s.length < ((cfg.rows * cfg.cols : Nat) : Int)) (ads : List ActDraw) (k : Nat)
+    (p : State × TimeStep Obs)
+    (hok : ∀ j (hj : j < ads.length), j ≤ k → okStep rnd cfg (EpRun.after (stepA rnd cfg) s (ads.take j)) ads[j])
+    (hno : EpRun.NoLastBefore (stepA rnd cfg) (·.stepType = .last) s ads k)
+    (h : (run rnd cfg s ads)[k]? = some p) :
+    ∃ hk : k < ads.length,
+      (p.2.stepType = .last ↔
+        (otherCause rnd cfg (EpRun.after (stepA rnd cfg) s (ads.take k)) ads[k] ∨
+          s.stepCount + k + 1 ≥ cfg.timeLimit)) := Snake.run_last_iff rnd cfg s hc hlen ads k p hok hno h
+
+/-- if no other cause of termination occurs, the FIRST LAST of a play is exactly at step `time_limit` -/
+theorem snake_run_first_last_at_limit (rnd : Rat → Rat) (cfg : Cfg) (s : State) (hc : Consistent cfg s)
+    (hlen : s.length < ((cfg.rows * cfg.cols : Nat) : Int)) (h0 : s.stepCount < cfg.timeLimit)
+    (ads : List ActDraw) (k : Nat) (p : State × TimeStep Obs)
+    (hok : ∀ j (hj : j < ads.length), j ≤ k → okStep rnd cfg (EpRun.after (stepA rnd cfg) s (ads.take j)) ads[j])
+    (hno : EpRun.NoLastBefore (stepA rnd cfg) (·.stepType = .last) s ads k)
+    (h : (run rnd cfg s ads)[k]? = some p) (hlast : p.2.stepType = .last)
+    (hother : ∀ hk : k < ads.length, ¬ otherCause rnd cfg (EpRun.after (stepA rnd cfg) s (ads.take k)) ads[k]) :
+    s.stepCount + k + 1 = cfg.timeLimit :=
+  Snake.run_first_last_eq rnd cfg s hc hlen h0 ads k p hok hno h hlast hother
+
+-- 3×3 board, limit 3, going Right, Right, Down from (0,0) without meeting the fruit at (2,0): MID, MID, LAST at step 3
+example : ((run id ⟨3, 3, 3⟩ (reset id ⟨3, 3, 3⟩ 0 0 6).1 [(1, 8), (1, 8), (2, 7), (2, 7)]).map
+    (fun p => decide (p.2.stepType = .last))) = [false, false, true, true] := by decide +kernel
 end Props.C11
 
 namespace Props.C12
@@ -241,6 +376,42 @@ theorem snake_obs_planes (rnd : Rat → Rat) (cfg : Cfg) (t : State)
     (hh : inGrid cfg t.head.row t.head.col) (hfr : inGrid cfg t.fruit.row t.fruit.col)
     (hm : t.actionMask = legalMask cfg t) :
     stateToObs rnd t = observe rnd cfg t := Snake.obs_eq rnd cfg t hs hbody htail hh hfr hm
+
+/-- in particular in EVERY consistent state `_state_to_observation` returns the documented observation -/
+theorem snake_obs_consistent (rnd : Rat → Rat) (cfg : Cfg) (t : State) (hc : Consistent cfg t) :
+    stateToObs rnd t = observe rnd cfg t := Snake.obs_of_consistent rnd cfg t hc
+
+/-- the observation returned by `reset` (any head cell of the board, any admissible fruit draw) is the documented
+function of the reset state, and the timestep is FIRST (audit r2 #12) -/
+theorem snake_reset_obs_faithful (rnd : Rat → Rat) (cfg : Cfg) (hr hc : Nat) (d : Nat)
+    (h1 : hr < cfg.rows) (h2 : hc < cfg.cols) (hd : validDraw cfg (reset rnd cfg hr hc d).1.body d) :
+    (reset rnd cfg hr hc d).2.obs = observe rnd cfg (reset rnd cfg hr hc d).1 ∧
+    (reset rnd cfg hr hc d).2.stepType = .first := Snake.reset_obs_faithful rnd cfg hr hc d h1 h2 hd
+
+/-- the hypotheses of `snake_obs_faithful` / `snake_obs_planes` are satisfiable: 2×3 board, snake of length 3, moving
+Right keeps the head on the board; the state's derived fields agree with `body_state` -/
+example :
+    let cfg : Cfg := ⟨2, 3, 10⟩
+    let s : State := ⟨[[true, false, false], [true, true, false]], [[1, 0, 0], [2, 3, 0]], ⟨1, 1⟩,
+      [[true, false, false], [false, false, false]], ⟨0, 2⟩, 3, 4, [true, true, false, false]⟩
+    Grid.shaped s.bodyState cfg.rows cfg.cols = true ∧ inGrid cfg (headAfter s 1).row (headAfter s 1).col ∧
+    inGrid cfg s.fruit.row s.fruit.col ∧ s.body = Grid.map (fun x => decide (x > 0)) s.bodyState ∧
+    s.tail = Grid.map (fun x => decide (x = 1)) s.bodyState ∧ inGrid cfg s.head.row s.head.col ∧
+    s.actionMask = legalMask cfg s := by decide
+
+/-- KNOWN FINDING (opt-in check `VERIF_SNAKE_STRICT_HEAD`), the hypothesis "new head on the board" of
+`snake_obs_faithful` cannot be dropped: after the invalid move Up from row 0 the new head is at row −1; the scatter
+`zeros.at[(-1, 0)].set(True)` WRAPS and marks cell (1,0) of the head plane of the (terminal) observation, while the
+documented plane "1 at the head position" has no cell at row −1 and is all zero.  Same in the real code (negative
+indices wrap in `.at[].set`). -/
+theorem snake_offboard_head_obs_witness :
+    let cfg : Cfg := ⟨2, 3, 10⟩
+    let s := (reset id cfg 0 0 5).1
+    (step id cfg s 0 0).2.stepType = .last ∧ (step id cfg s 0 0).1.head = ⟨-1, 0⟩ ∧
+    (step id cfg s 0 0).2.obs.head = [[0, 0, 0], [1, 0, 0]] ∧
+    (observe id cfg (step id cfg s 0 0).1).head = [[0, 0, 0], [0, 0, 0]] ∧
+    (step id cfg s 0 0).2.obs ≠ observe id cfg (step id cfg s 0 0).1 := by
+  decide +kernel
 end Props.C12
 
 namespace Props.C01
@@ -311,4 +482,42 @@ theorem snake_step_obs_in_bounds_nonNeg_roundF32 (cfg : Cfg) (s : State) (a : In
 /-- the hypotheses are satisfiable: the reset state of a 2×3 board with limit 1 is `NonNeg` and running -/
 example : NonNeg (reset Jx.roundF32 ⟨2, 3, 1⟩ 0 0 5).1 ∧ (reset Jx.roundF32 ⟨2, 3, 1⟩ 0 0 5).1.stepCount < 1 :=
   ⟨Snake.reset_nonNeg _ _ _ _ _, by decide +kernel⟩
+
+/-! #### shapes (audit r2 #15) and the tie to the declared spec -/
+
+/-- the reset observation (ANY draws) has the shapes `obsShapes cfg` lists: five `rows × cols` planes (the `grid` leaf
+of shape `(rows, cols, 5)`), a 4-entry mask -/
+theorem snake_reset_obs_shaped (rnd : Rat → Rat) (cfg : Cfg) (hr hc : Nat) (d : Nat) :
+    ObsShaped cfg (reset rnd cfg hr hc d).2.obs ∧
+    Grid.shaped (reset rnd cfg hr hc d).1.bodyState cfg.rows cfg.cols = true :=
+  Snake.reset_obs_shaped rnd cfg hr hc d
+
+/-- every step from a state whose `body_state` has the configured shape — ANY action value, any draw, terminal steps
+included — emits an observation of those shapes, and the successor's `body_state` has that shape again (so the shapes
+hold along every trajectory from reset) -/
+theorem snake_step_obs_shaped (rnd : Rat → Rat) (cfg : Cfg) (s : State) (a : Int) (d : Nat)
+    (hs : Grid.shaped s.bodyState cfg.rows cfg.cols = true) :
+    ObsShaped cfg (step rnd cfg s a d).2.obs ∧
+    Grid.shaped (step rnd cfg s a d).1.bodyState cfg.rows cfg.cols = true :=
+  Snake.step_obs_shaped rnd cfg s a d hs
+
+/-- values and shapes together, from a consistent state of a running episode -/
+theorem snake_step_obs_conforms (rnd : Rat → Rat) (hrnd : RndKeeps01 rnd) (cfg : Cfg) (s : State) (a : Int)
+    (d : Nat) (hC : Consistent cfg s) (h1 : s.stepCount < cfg.timeLimit) :
+    ObsInBounds cfg (step rnd cfg s a d).2.obs ∧ ObsShaped cfg (step rnd cfg s a d).2.obs := by
+  obtain ⟨⟨cs, hch⟩, _⟩ := hC
+  exact ⟨Snake.step_obs_in_bounds rnd hrnd cfg s a d ⟨⟨cs, hch⟩, by assumption⟩ h1,
+    (Snake.step_obs_shaped rnd cfg s a d hch.1).1⟩
+
+/-- the proved intervals and shapes lie inside the DECLARED spec (the literals generated from the real
+`observation_spec`, `Gen/Specs.lean`) for the catalogue configuration of Snake (5×6, time limit 10): all three declared
+leaves are covered, `grid` is `(5, 6, 5)` within `[0, 1]`, `step_count ∈ [0, 10]` is inside `DiscreteArray(11)` -/
+theorem snake_bounds_within_declared_spec :
+    SpecTieSSM.tie "snake-5x6" (obsBounds ⟨5, 6, 10⟩) (obsShapes ⟨5, 6, 10⟩) = true ∧
+    (SpecTieSSM.obsLeavesOf "snake-5x6").length = 3 := by decide +kernel
+/-- not vacuous: with time limit 11 the proved bound `step_count ≤ 11` is NOT inside `DiscreteArray(11)` (this is the
+defect of the original tree, `DiscreteArray(time_limit)`), and a wrong plane count is rejected -/
+example : SpecTieSSM.tie "snake-5x6" (obsBounds ⟨5, 6, 11⟩) (obsShapes ⟨5, 6, 10⟩) = false ∧
+    SpecTieSSM.tie "snake-5x6" (obsBounds ⟨5, 6, 10⟩) [("grid", [5, 6, 4]), ("step_count", []), ("action_mask", [4])] = false := by
+  decide +kernel
 end Props.C01
